@@ -81,7 +81,11 @@ class Gen:
             return C["El"](self.pick("Name", NAMES), r.random() < 0.5, self.gen("AttrList"), self.gen("NodeList", depth - 1))
         if sort == "NodeList":
             n = r.choice([0, 1, 1, 2, 2, 3, 4])
-            return mk_list("NodeList", [self.gen("Node", depth) for _ in range(n)])
+            items = [self.gen("Node", depth) for _ in range(n)]
+            if r.random() < 0.12:
+                # a first child that renders to nothing (empty text / markup / _repr_html_), then a block tag: exercises "is this the first line?"
+                items = [r.choice([C["Txt"](""), C["Raw"](""), C["Rp"]("", 100)]), C["El"]("div", True, mk_list("AttrList", []), mk_list("NodeList", [C["Txt"]("x")]))] + items[:2]
+            return mk_list("NodeList", items)
         if sort == "St":
             return C["St"](self.gen("Str"), r.random() < 0.5, r.random() < 0.5)
         if sort == "AddArg":
